@@ -67,8 +67,9 @@ def run(tier, replay=None):
     ores = tlc_generate("Gen_Overflow", heap="6g")
     out.add_tlc(ores[1])
     ov = ores[0]
-    if tier == "quick":
-        ov = [c for i, c in enumerate(ov) if i % 6 == seed() % 6]
+    if tier == "quick":      # the extreme pairs always, the rest rotating with the seed
+        ext = {0, -1, 1, 2147483647, -2147483648, -2147483647}
+        ov = [c for i, c in enumerate(ov) if (c["x"] in ext and c["y"] in ext) or i % 6 == seed() % 6]
     for c in ov:
         add("overflow:" + c["shape"], mode="observe", text=c["text"], want=["lints"])
     gres = tlc_generate("Gen_IncGraph", heap="6g")
